@@ -7,6 +7,7 @@ import (
 	"sort"
 	"strconv"
 	"strings"
+	"sync"
 	"time"
 )
 
@@ -138,8 +139,12 @@ func NewUnits(baseUnit *UnitDefinition, multipliers map[int64]*UnitDefinition) *
 }
 
 type UnitsDefinition struct {
-	BaseUnitValue          *UnitDefinition           `json:"base_unit"`
-	MultipliersValue       map[int64]*UnitDefinition `json:"multipliers"`
+	BaseUnitValue    *UnitDefinition           `json:"base_unit"`
+	MultipliersValue map[int64]*UnitDefinition `json:"multipliers"`
+	// The caches below are derived from the fields above on first use. Unit definitions are shared between
+	// goroutines (the package-level definitions by every schema of the process), so they are built exactly
+	// once and only read afterwards.
+	cacheOnce              sync.Once
 	sortedMultipliersCache []int64
 	reCache                *regexp.Regexp
 	reSubExpNames          map[string]int
@@ -227,8 +232,9 @@ func floorDiv(a int64, b int64) int64 {
 	return quotient
 }
 
-func (u *UnitsDefinition) getSortedMultipliersCache() []int64 {
-	if u.sortedMultipliersCache == nil {
+// initCaches builds the sorted multiplier list and the parsing expression, once.
+func (u *UnitsDefinition) initCaches() {
+	u.cacheOnce.Do(func() {
 		var multipliers []int64
 		for multiplier := range u.MultipliersValue {
 			multipliers = append(multipliers, multiplier)
@@ -237,7 +243,12 @@ func (u *UnitsDefinition) getSortedMultipliersCache() []int64 {
 			return multipliers[i] > multipliers[j]
 		})
 		u.sortedMultipliersCache = multipliers
-	}
+		u.updateReCache()
+	})
+}
+
+func (u *UnitsDefinition) getSortedMultipliersCache() []int64 {
+	u.initCaches()
 	return u.sortedMultipliersCache
 }
 
@@ -248,9 +259,7 @@ func (u *UnitsDefinition) parse(data string) (any, error) {
 			Message: "Empty string cannot be parsed as " + u.BaseUnitValue.NameLongPlural(),
 		}
 	}
-	if u.reCache == nil {
-		u.updateReCache()
-	}
+	u.initCaches()
 	match := u.reCache.FindStringSubmatch(data)
 	if match == nil {
 		return u.buildUnitParseError(data)
@@ -342,7 +351,7 @@ func (u *UnitsDefinition) handleParseMultiplier(
 func (u *UnitsDefinition) updateReCache() {
 	var parts []string
 	if u.MultipliersValue != nil {
-		for _, multiplier := range u.getSortedMultipliersCache() {
+		for _, multiplier := range u.sortedMultipliersCache {
 			unit := u.MultipliersValue[multiplier]
 			parts = append(parts, fmt.Sprintf(
 				"(?:|(?P<g%s>[0-9]+)\\s*(%s|%s|%s|%s))",
